@@ -3,6 +3,8 @@
 package cl
 
 import (
+	"strings"
+
 	"github.com/ohler55/slip"
 )
 
@@ -65,13 +67,16 @@ func (f *Letx) Call(s *slip.Scope, args slip.List, depth int) (result slip.Objec
 			if sym, ok = tb[0].(slip.Symbol); !ok {
 				slip.TypePanic(s, depth, "let* local variable binding", tb[0], "symbol")
 			}
+			var value slip.Object
 			if 1 < len(tb) {
-				// Use the original scope to avoid using the new bindings since
-				// they are evaluated in apparent parallel.
-				ns.Let(sym, slip.EvalArg(ns, tb, 1, d2))
-			} else {
-				ns.Let(sym, nil)
+				value = slip.EvalArg(ns, tb, 1, d2)
 			}
+			if _, has := ns.Vars[strings.ToLower(string(sym))]; has {
+				// A variable bound a second time is a new binding. Closures
+				// made by earlier init forms keep the earlier binding.
+				ns = ns.NewScope()
+			}
+			ns.Let(sym, value)
 		default:
 			slip.TypePanic(s, depth, "let* binding", f, "list", "symbol")
 		}
